@@ -164,6 +164,7 @@ def run(an: Analysis, rep):
     rep.extra["positive_control_sites_in_from_code_closure"] = n_pos
     rep.run(r152, an, rep)
     rep.run(r153, an, rep, closure_mods)
+    rep.run(r154, an, rep, closure_mods)
     rep.stats.update(an.stats(interps))
     rep.assumptions += [
         "json / orjson themselves serialise floats, strings and containers identically on 3.7..3.12",
@@ -291,7 +292,11 @@ def r153(an: Analysis, rep, closure_mods: Set[str]):
                     continue
                 row = table.get(key)
                 if row is None:
-                    raise AnalysisError(f"import {key} in {mn} is not in reference/stdlib_names.json: run reference/stdlib_names.py")
+                    # not in the committed table (an import the tree did not have when it was written): parse the stdlib source trees now
+                    import reference.stdlib_names as SN
+                    row = {v: SN.lookup(v, mod, name) for v in SN.TREES}
+                    if any(x is None for x in row.values()):
+                        raise AnalysisError(f"import {key} in {mn} is not in reference/stdlib_names.json and the stdlib source trees are not all present")
                 missing = [v for v, ok in row.items() if ok is False]
                 rep.add("R15.3", f"{mn}::{key}", not missing, loc(m, st),
                         f"{key} is not defined in the stdlib of {missing}: importing {mn} fails there, so a document cannot be loaded on that host" if missing
@@ -315,3 +320,89 @@ def _in_try_import(m: Module, node) -> bool:
                     return True
         cur = par
     return False
+
+
+# ----------------------------------------------------------------------------- R15.4
+_RE_FUNCS = {"compile", "match", "fullmatch", "search", "sub", "subn", "split", "findall", "finditer"}
+_PEP585 = {"tuple", "list", "dict", "set", "frozenset", "type"}
+
+
+def _annotation_nodes(m: Module) -> Set[int]:
+    """ids of nodes inside annotations that are never evaluated (module has `from __future__ import annotations`; locals' annotations never are)."""
+    lazy = any(isinstance(st, ast.ImportFrom) and st.module == "__future__" and any(a.name == "annotations" for a in st.names) for st in m.tree.body)
+    out: Set[int] = set()
+
+    def mark(n):
+        if n is not None:
+            for x in ast.walk(n):
+                out.add(id(x))
+    for fn in ast.walk(m.tree):
+        if isinstance(fn, (ast.FunctionDef, ast.AsyncFunctionDef)):
+            if lazy:
+                a = fn.args
+                for x in a.posonlyargs + a.args + a.kwonlyargs + ([a.vararg] if a.vararg else []) + ([a.kwarg] if a.kwarg else []):
+                    mark(x.annotation)
+                mark(fn.returns)
+            for st in ast.walk(fn):
+                if isinstance(st, ast.AnnAssign) and isinstance(st.target, ast.Name):
+                    mark(st.annotation)  # annotations of local variables are never evaluated
+        elif isinstance(fn, ast.AnnAssign) and lazy:
+            mark(fn.annotation)
+    return out
+
+
+def r154(an: Analysis, rep, closure_mods: Set[str]):
+    """Constructs whose *evaluation* differs between 3.7 .. 3.12, in code that runs when a JSON-path module is imported or a document is
+    loaded: (a) regular-expression syntax - a global inline flag after the start of the pattern is an error from 3.11, possessive
+    quantifiers / atomic groups are errors before 3.11; (b) isinstance / issubclass against a typing.Union alias raises TypeError before
+    3.10; (c) a subscripted builtin container (tuple[int, ...], PEP 585) outside an unevaluated annotation raises TypeError on 3.7 / 3.8."""
+    import re as _re
+    rep.rule("R15.4", "no regular-expression syntax, Union instance check or subscripted builtin whose evaluation differs across 3.7 .. 3.12", 0)
+    n = {"regex": 0, "instance checks": 0, "subscripts": 0}
+    for mn in sorted(closure_mods):
+        m = an.prog.module(mn)
+        lazy_nodes = _annotation_nodes(m)
+        for c in ast.walk(m.tree):
+            # (a)
+            if isinstance(c, ast.Call) and c.args and isinstance(c.args[0], ast.Constant) and isinstance(c.args[0].value, str):
+                fname = c.func.attr if isinstance(c.func, ast.Attribute) else (c.func.id if isinstance(c.func, ast.Name) else None)
+                base_ok = False
+                if isinstance(c.func, ast.Attribute) and isinstance(c.func.value, ast.Name):
+                    r = an.prog.resolve_global(m, c.func.value.id, None)
+                    base_ok = bool(r and r[0] == "ext" and r[1] == "re")
+                elif isinstance(c.func, ast.Name):
+                    r = an.prog.resolve_global(m, c.func.id, None)
+                    base_ok = bool(r and r[0] == "ext" and r[1].startswith("re."))
+                if base_ok and fname in _RE_FUNCS:
+                    n["regex"] += 1
+                    pat = c.args[0].value
+                    why = None
+                    mm = _re.search(r"\(\?[aiLmsux]+\)", pat)
+                    if mm and mm.start() > 0:
+                        why = (f"the global inline flag `{mm.group(0)}` is not at the start of the pattern: a DeprecationWarning up to 3.10, `re.error: global flags not at the "
+                               f"start of the expression` from 3.11 - the document loads on 3.7-3.10 and fails on 3.11+")
+                    elif _re.search(r"(?<!\\)(\*\+|\+\+|\?\+|\}\+|\(\?>)", pat):
+                        why = "possessive quantifier / atomic group: supported from 3.11 only, `re.error` on 3.7-3.10"
+                    rep.add("R15.4", f"{mn}::pattern {pat!r}", why is None, loc(m, c), "pattern uses syntax common to 3.7 .. 3.12" if why is None else f"regular expression {pat!r}: {why}")
+            # (b)
+            if isinstance(c, ast.Call) and isinstance(c.func, ast.Name) and c.func.id in ("isinstance", "issubclass") and len(c.args) == 2:
+                n["instance checks"] += 1
+                for x in ([c.args[1]] + (list(c.args[1].elts) if isinstance(c.args[1], ast.Tuple) else [])):
+                    if isinstance(x, ast.Name):
+                        r = an.prog.resolve_global(m, x.id, None)
+                        if r and r[0] == "var":
+                            exprs = r[1].assigns.get(r[2], [])
+                            if exprs and isinstance(exprs[0], ast.Subscript) and norm_src(exprs[0].value).split(".")[-1] in ("Union", "Optional"):
+                                rep.add("R15.4", f"{mn}::{norm_src(c)[:50]}", False, loc(m, c),
+                                        f"`{x.id}` is the typing alias `{norm_src(exprs[0])[:60]}`: isinstance() against a Union raises `TypeError: Subscripted generics cannot be used "
+                                        f"with class and instance checks` on 3.7-3.9 and works from 3.10 - a document that reaches this test loads on some hosts only")
+            # (c)
+            if isinstance(c, ast.Subscript) and isinstance(c.value, ast.Name) and c.value.id in _PEP585 and id(c) not in lazy_nodes and isinstance(c.ctx, ast.Load):
+                r = an.prog.resolve_global(m, c.value.id, None)
+                if r is None:  # the builtin, not a local alias
+                    # only when not merely a value subscript: builtins are classes, `tuple[...]` is always a generic alias
+                    n["subscripts"] += 1
+                    rep.add("R15.4", f"{mn}::{norm_src(c)[:40]}", False, loc(m, c),
+                            f"`{norm_src(c)[:50]}` is evaluated at run time (it is not inside an annotation that `from __future__ import annotations` leaves unevaluated): subscripting "
+                            f"the builtin `{c.value.id}` raises `TypeError: 'type' object is not subscriptable` on 3.7 and 3.8 (PEP 585 is 3.9+)")
+    rep.add("R15.4", "version-sensitive run-time constructs examined", True, "code_data/", f"{n} in modules {sorted(closure_mods)}", nontrivial=False)
